@@ -155,7 +155,7 @@ class BSL(ModelBased):
         self.state['params'] = np.zeros((n_samples, len(self.parameter_names)))
         self.state['params'][0] = params0
         self.state['logprior'] = np.zeros((n_samples))
-        self.state['logprior'][0] = self.prior.logpdf(params0)
+        self.state['logprior'][0] = np.squeeze(self.prior.logpdf(params0))
         self.state['logposterior'] = np.zeros((n_samples))
         if self.is_misspec:
             self.state['gamma'] = np.zeros((n_samples, self.observed.size))
@@ -217,7 +217,7 @@ class BSL(ModelBased):
             logprior = self.prior.logpdf(prop)
             if np.isfinite(logprior):
                 # start data collection with the proposed parameter values
-                self.state['logprior'][n] = logprior
+                self.state['logprior'][n] = np.squeeze(logprior)
                 self.state['params'][n] = prop
                 self.state['n_sim_round'] = 0
                 break
@@ -256,7 +256,7 @@ class BSL(ModelBased):
         logger.debug('SL {} at {}'.format(loglikelihood, self.current_params))
 
         # update state
-        self.state['logposterior'][n] = loglikelihood + self.state['logprior'][n]
+        self.state['logposterior'][n] = np.squeeze(loglikelihood) + self.state['logprior'][n]
 
         if n == 0:
             accept_candidate = True
